@@ -20,6 +20,14 @@ def data(draw, min_order=2, max_order=4, min_side=2, max_side=4, kinds=DATA_KIND
     if kind in ("lowrank", "lowrank_nonneg"):
         enc = {"s": list(shape), "lowrank": draw(st.integers(1, rank_max)), "seed": draw(gen.seeds),
                "nonneg": kind == "lowrank_nonneg"}
+    elif kind == "lowtucker":
+        # exactly low multilinear rank: every unfolding is rank deficient when a rank is below the side
+        enc = {"s": list(shape), "seed": draw(gen.seeds), "tucker_ranks": [draw(st.integers(1, max(1, min(2, s)))) for s in shape]}
+    elif kind == "dupslice":
+        # generic tensor whose slices along one mode are duplicated or zeroed (rank-deficient unfolding of that mode)
+        m = draw(st.integers(0, len(shape) - 1))
+        enc = {"s": list(shape), "seed": draw(gen.seeds), "k": "normal", "dup_mode": m,
+               "dup_src": [draw(st.integers(-1, i)) for i in range(shape[m])]}
     elif kind == "int":
         enc = draw(gen.arr(list(shape), kinds=("int",)))
     elif kind == "posint":
@@ -31,8 +39,24 @@ def data(draw, min_order=2, max_order=4, min_side=2, max_side=4, kinds=DATA_KIND
 
 
 def dec_data(enc):
-    e = {k: v for k, v in enc.items() if k != "kind"}
-    x = gen.dec_data(e)
+    """decode; optional keys: "tucker_ranks" (low multilinear rank), "dup_mode"/"dup_src" (slice i along dup_mode is a copy
+    of slice dup_src[i] <= i, or zero when dup_src[i] == -1), "xscale" (global factor applied last)"""
+    e = {k: v for k, v in enc.items() if k not in ("kind", "tucker_ranks", "dup_mode", "dup_src", "xscale")}
+    if "tucker_ranks" in enc:
+        x = gen.lowrank_tucker_tensor(enc["seed"], enc["s"], enc["tucker_ranks"])
+    else:
+        x = gen.dec_data(e)
+    x = np.array(x, dtype=float)
+    if "dup_mode" in enc:
+        m = enc["dup_mode"]
+        xm = np.moveaxis(x, m, 0)
+        for i, src in enumerate(enc["dup_src"]):
+            if src < 0:
+                xm[i] = 0.0
+            elif src != i:
+                xm[i] = xm[src]
+    if "xscale" in enc:
+        x = x * enc["xscale"]
     return np.ascontiguousarray(x, dtype=float)
 
 
